@@ -8,7 +8,7 @@ ROOT = os.path.dirname(os.path.dirname(os.path.abspath(__file__)))
 CLAIMED = {
     "C03": ("exploration",
             "deterministic simulation: seeded GC-decision schedules at every safepoint + poisoned/quarantined old arenas, transcript equality vs never-collect reference",
-            "Each generated module (values of every heap-allocated kind incl. type values, records with heap defaults, namespaces, names computed at run time, keyword-only defaults; 1-3 evaluations on one Module, embedder set()/extra_value and embedder-triggered Evaluator::garbage_collect in between, final freeze) is run under 5-8 seeded GC decision sequences chosen at every safepoint the evaluator offers; every arena a collection leaves behind is poisoned (and usually quarantined) so a missed root is a deterministic failure; the transcript (incl. error text, host-side reads, frozen exports) must equal the never-collect run byte for byte. Seeded sampling of programs x schedules, not a proof.",
+            "Each generated module (values of every heap-allocated kind incl. type values, records with heap defaults, namespaces, names computed at run time, keyword-only defaults; 1-3 evaluations on one Module, embedder set()/extra_value and embedder-triggered Evaluator::garbage_collect in between, optionally with one of six profilers enabled on the re-used evaluator and its profile collected at the end, final freeze) is run under 5-8 seeded GC decision sequences chosen at every safepoint the evaluator offers; every arena a collection leaves behind is poisoned (and usually quarantined) so a missed root is a deterministic failure; the transcript (incl. error text, host-side reads, frozen exports) must equal the never-collect run byte for byte. Seeded sampling of programs x schedules, not a proof.",
             "Trusts: collections only happen at PossibleGc safepoints (the decider hook performs the evaluator's own collection); the poison word makes any stale read fail or differ; generator bias is made visible by probes in the evidence.",
             "DESIGN.md §6 C03"),
     "C07": ("fault_enumeration",
